@@ -100,8 +100,8 @@ fn main() {
                     "C10" => c10::eval(&l2),
                     "C07" => c07::eval(&l2),
                     "C14" if l2.starts_with("KOT ") => c14::eval_kot(&l2), // C14v2
-                    "C02" | "C14" | "C01" => kan::eval_free(&l2),
-                    "KALL" | "C18" => kan::eval(&l2),
+                    "C02" | "C14" | "C01" | "C18" => kan::eval_free(&l2),
+                    "KALL" => kan::eval(&l2),
                     "C13" => c13::eval(&l2),
                     "C19" => c19::eval(&l2),
                     "C04" => c04::eval(&l2),
